@@ -1476,6 +1476,10 @@ func (li *layoutInterp) execCall(fn *ssa.Function, st *lpath, call *ssa.Call) []
 		st.notes = append(st.notes, "dynamic call at "+li.p.InstrPos(call))
 		return nil
 	}
+	if callee.Pkg != nil && callee.Pkg.Pkg.Path() == modPath+"/knx/util" && callee.Name() == "Log" && callee.Signature.Recv() == nil && callee.Signature.Results().Len() == 0 {
+		// the logging sink: returns nothing, touches neither buffer nor value (its own bookkeeping is not the encoder's)
+		return nil
+	}
 	switch callee.String() {
 	case "(encoding/binary.bigEndian).PutUint16", "(encoding/binary.bigEndian).PutUint32", "(encoding/binary.bigEndian).PutUint64":
 		n := 2
